@@ -561,7 +561,7 @@ theorem woken_ne {cfg : Cfg} {lk : Lock} (w : LockWF cfg lk) {key : Key} (hc : l
 theorem relF_key (m c : Nat) (hd : Option LockId) : ∀ x, (relNodeF m c hd x).key = x.key := fun _ => rfl
 theorem relF_holder (m c : Nat) (hd : Option LockId) : ∀ x, (relNodeF m c hd x).holder = hd := fun _ => rfl
 
-theorem Inv1.eff {cfg : Cfg} {s s' : State} (h : Inv1 cfg s) (e : Eff cfg s s') : Inv1 cfg s' := by
+theorem Inv1.eff {cfg : Cfg} {s s' : State} (h : Inv1 cfg s) {o : Option LockId} (e : Eff cfg s o s') : Inv1 cfg s' := by
   cases e with
   | gen ts keys hnd => exact h.gen ts hnd
   | recycle i ts => exact h.recycle i ts
